@@ -102,7 +102,7 @@ pub fn frame(rec: &mut Vec<u8>, marks: &[Mark], rng: &mut Rng, prefer_nested: bo
             .copied()
             .filter(|m| {
                 m.depth == maxd
-                    && matches!(m.role, Role::ChunkSize | Role::Position | Role::Version | Role::Count | Role::StepCode)
+                    && matches!(m.role, Role::ChunkSize | Role::Position | Role::Version | Role::Count | Role::StepCode | Role::CtorIdx | Role::RefId)
             })
             .collect();
         if deep.is_empty() {
